@@ -160,6 +160,8 @@ type HeaderSpec struct {
 	Name      string   `json:"name"`
 	Values    []string `json:"values"`
 	Preformat bool     `json:"preformat,omitempty"`
+	// OldName: set through the deprecated aliases SetHeader / SetHeaderPreformatted.
+	OldName bool `json:"old_name,omitempty"`
 }
 
 // MsgSpec is a complete "message program".
@@ -456,7 +458,13 @@ func Build(spec *MsgSpec, env *Env) (*Built, error) {
 			if len(h.Values) > 0 {
 				v = h.Values[0]
 			}
-			m.SetGenHeaderPreformatted(mail.Header(h.Name), v)
+			if h.OldName {
+				m.SetHeaderPreformatted(mail.Header(h.Name), v)
+			} else {
+				m.SetGenHeaderPreformatted(mail.Header(h.Name), v)
+			}
+		} else if h.OldName {
+			m.SetHeader(mail.Header(h.Name), append([]string{}, h.Values...)...)
 		} else {
 			m.SetGenHeader(mail.Header(h.Name), append([]string{}, h.Values...)...)
 		}
